@@ -385,9 +385,9 @@ theorem funnel_erase (F : Facts09) (t : Text) (h : F.faultString = .constant t) 
     funnel F r.erase = funnel F r := by
   rcases r with ⟨c, f⟩ | (_ | e) | e <;> simp [Raised.erase, funnel, genericFault, faultString, h]
 
-theorem serializeFailed_erase (F : Facts09) (t : Text) (h : F.faultString = .constant t) (p : Proto)
+theorem serializeFailed_erase (F : Facts09) (t : Text) (h : F.faultString = .constant t) (sp p : Proto)
     (preset : Option Nat) (r : Raised) :
-    serializeFailed F p preset r.erase = serializeFailed F p preset r := by
+    serializeFailed F sp p preset r.erase = serializeFailed F sp p preset r := by
   cases hs : F.serErr
   · simp [serializeFailed, hs, funnel_erase F t h]
   · rcases r with ⟨c, f⟩ | (_ | e) | e <;>
@@ -400,19 +400,23 @@ theorem afterRaise_erase (F : Facts09) (t : Text) (h : F.faultString = .constant
   rcases r with ⟨c, f⟩ | (_ | e) | e <;> simp [Raised.erase, afterRaise, funnel, genericFault, faultString, h]
 
 /-- non-interference: the response is the same whatever the non-Fault exceptions carry -/
-theorem wsgi_erase (F : Facts09) (t : Text) (h : F.faultString = .constant t) (p : Proto)
-    (preset : Option Nat) (u : UserCode) : wsgi F p preset u.erase = wsgi F p preset u := by
+theorem wsgiOn_erase (F : Facts09) (t : Text) (h : F.faultString = .constant t) (sp p : Proto)
+    (preset : Option Nat) (u : UserCode) : wsgiOn F sp p preset u.erase = wsgiOn F sp p preset u := by
   rcases u with s | ⟨first, later⟩ | ⟨site, level, r, body⟩
   · rcases s with v | r
     · rfl
-    · simp [UserCode.erase, Step.erase, wsgi, process, afterRaise_erase F t h]
+    · simp [UserCode.erase, Step.erase, wsgiOn, process, afterRaise_erase F t h]
   · rcases first with v | r
     · rcases later with _ | r
       · rfl
-      · simp [UserCode.erase, Step.erase, wsgi, process, serializeFailed_erase F t h]
-    · simp [UserCode.erase, Step.erase, wsgi, process, funnel_erase F t h]
+      · simp [UserCode.erase, Step.erase, wsgiOn, process, serializeFailed_erase F t h]
+    · simp [UserCode.erase, Step.erase, wsgiOn, process, funnel_erase F t h]
   · cases site <;> rcases body with v | r' <;>
-      simp [UserCode.erase, Step.erase, wsgi, process, afterRaise_erase F t h]
+      simp [UserCode.erase, Step.erase, wsgiOn, process, afterRaise_erase F t h]
+
+theorem wsgi_erase (F : Facts09) (t : Text) (h : F.faultString = .constant t) (p : Proto)
+    (preset : Option Nat) (u : UserCode) : wsgi F p preset u.erase = wsgi F p preset u :=
+  wsgiOn_erase F t h p p preset u
 
 /-! ### the spyne clients -/
 theorem client11_encode (F : Facts09) (f : FaultV) :
